@@ -23,13 +23,15 @@ func init() {
 		"C35": {"(V1) 'verified' is SignedTRC.Verify: its dispatch, the update verification and the all-required-certificates-signed check with its cardinality comparison (C32 G1-G3 borrowed)."},
 		"C36": {"(K1) Signer.Sign writes and Verifier.Verify reads the verification key id member for member (IsdAs, TrcBase, TrcSerial, SubjectKeyId)."},
 		"C37": {"(C1) 'that chain verifies' is cppki.VerifyChain: chain validation, x509 verification at the given time against the TRC's root pool, certificate constraints (C34 V1, V2, K1 borrowed)."},
-		"C38": {"(H2) the optional header timestamp is encoded as present exactly when the Go time is non-zero and decoded as non-zero exactly when the sub-message is present."},
+		"C38": {"(H2) the optional header timestamp is encoded as present exactly when the Go time is non-zero and decoded as non-zero exactly when the sub-message is present.",
+			"(F2) every element of the associated data is fed into the signature input: the feeding call lies on every way round its loop, the loop covers every index and is left only through its own condition."},
 		"C39": {"(Q1) in the three DRKey sqlite back ends every placeholder of every statement is bound to the member its column holds (statement text and call arguments are both read from the source)."},
 		"C03": {"(O1) the path snet decodes from a packet owns its bytes: every store into RawPath.Raw in Packet.Decode is a freshly made slice into which the path is serialized (ReplyPath reverses in place; the connection reuses its receive buffer)."},
 		"C40": {"(P1) the peer address the validators compare against is the transport's: in pkg/connect.AttachPeer (closures and module callees included) peer.Peer.Addr is the http3 remote address or the request's TCP remote address, and nothing the requester writes into the request is read.",
 			"(X2) every response encoder carries the derived key's epoch bounds and key bytes."},
 		"C42": {"(P1, converse) a rule whose From and To match is applied: every way round the rule loop of Policy.Match that neither adds nor removes a set crosses a failed From/To match."},
-		"C43": {"(P1) each of the 12 printers emits its one text form with all its members, unconditionally (an inverted port range is printed as the inverted range it is)."},
+		"C43": {"(P1) each of the 12 printers emits its one text form with all its members, unconditionally (an inverted port range is printed as the inverted range it is).",
+			"(E1) a port predicate means min <= port <= max: Eval touches port, MinPort and MaxPort only through comparisons, and its result, folded at every ordering of the three values (27 assignments), is that conjunction."},
 		"C46": {"(H1) a Host is printed and parsed verbatim: String() prints netip.Addr.String of the stored address / SVC.String of the stored service, selected by Type(); String, ParseHost, HostIP and IP call nothing that changes the representation of the address."},
 		"C47": {"(H1) HopPredicateFromString stores as many interfaces as were written: the second comma part is appended under no condition on its value, on every successful path; ISD and AS are the parsed parts."},
 		"C48": {"(F1) FIFO content, by SSA value identity: each copy out of the ring is followed by exactly one clearing construct over exactly the copied range, the read/write index advances by what was copied and is reset to the wrapped piece's length, the wrapped piece continues the caller's list at [n1:] and is taken only if n1 < len(list)."},
